@@ -49,7 +49,28 @@ theorem tokensOfMatch_lines (d : Delims) (src : Bytes) (ts : Nat) (caps : Caps) 
 theorem prefix_take_of_le {l s : Bytes} (h : l <+: s) (n : Nat) (hn : l.length ≤ n) : l <+: s.take n :=
   List.prefix_take_iff.mpr ⟨h, hn⟩
 
-/-- the invariant of the `FindAll` loop, for any regexp all of whose matches begin with an
+/-- a text token for the first `a` bytes of `rest` (none when there are none), then tokens that
+    account for the remainder -/
+theorem lexTail_spec (toks : List Token) (rest : Bytes) (a l : Nat)
+    (hrec : srcs toks = rest.drop a ∧ linesOk (l + countNL (rest.take a)) toks = true) :
+    srcs ((if (rest.take a).isEmpty then [] else [({ ty := .text, line := l, source := rest.take a } : Token)]) ++ toks) = rest ∧
+    linesOk l ((if (rest.take a).isEmpty then [] else [({ ty := .text, line := l, source := rest.take a } : Token)]) ++ toks) = true := by
+  split
+  · next h =>
+    have h0 : rest.take a = [] := List.isEmpty_iff.mp h
+    rw [h0] at hrec
+    have hr : rest.drop a = rest := by
+      have := List.take_append_drop a rest
+      rw [h0, List.nil_append] at this; exact this
+    simp only [List.nil_append]
+    exact ⟨by rw [hrec.1, hr], by simpa [countNL] using hrec.2⟩
+  · constructor
+    · simp only [srcs_append, srcs_cons, srcs_nil, List.append_nil, hrec.1, List.take_append_drop]
+    · rw [linesOk_append]
+      simp only [linesOk, Token.isTrim, srcs_cons, srcs_nil, List.append_nil, hrec.2]
+      simp
+
+/-- the invariant of the match loop, for any regexp all of whose matches begin with an
     opening delimiter -/
 theorem scanLoop_spec (mfuel : Nat) (re : Re) (d : Delims) (hre : StartsWithDelim re d) :
     ∀ (n : Nat) (s : Bytes) (p line : Nat),
@@ -77,35 +98,35 @@ theorem scanLoop_spec (mfuel : Nat) (re : Re) (d : Delims) (hre : StartsWithDeli
         · exact Or.inr (Or.inl (prefix_take_of_le h1 _ (by omega)))
       have hsrc := tokensOfMatch_srcs d _ (p + skip) caps (line + countNL (s.take skip)) hpre
       have hlin := tokensOfMatch_lines d ((s.drop skip).take (e - (p + skip))) (p + skip) caps (line + countNL (s.take skip))
-      have hrec := ih (s.drop (skip + (e - (p + skip)))) e
-        (line + countNL (s.take skip) + countNL ((s.drop skip).take (e - (p + skip))))
       simp only
+      generalize lexSkip mfuel d (tagNameOfMatch d ((s.drop skip).take (e - (p + skip))) (p + skip) caps)
+        (s.drop (skip + (e - (p + skip)))) e = a
+      have htail := lexTail_spec _ (s.drop (skip + (e - (p + skip)))) a
+        (line + countNL (s.take skip) + countNL ((s.drop skip).take (e - (p + skip))))
+        (ih ((s.drop (skip + (e - (p + skip)))).drop a) (e + a)
+          (line + countNL (s.take skip) + countNL ((s.drop skip).take (e - (p + skip))) +
+            countNL ((s.drop (skip + (e - (p + skip)))).take a)))
+      have hpresrc : srcs (if (s.take skip).isEmpty = true then []
+          else [({ ty := .text, line := line, source := s.take skip } : Token)]) = s.take skip := by
+        split
+        · next h => simp [List.isEmpty_iff.mp h]
+        · simp
       constructor
       · simp only [srcs_append, hsrc]
-        have hpresrc : srcs (if (s.take skip).isEmpty = true then []
-            else [({ ty := .text, line := line, source := s.take skip } : Token)]) = s.take skip := by
-          split
-          · next h => simp [List.isEmpty_iff.mp h]
-          · simp
         rw [hpresrc]
         split
         · split
           · next h => rw [List.isEmpty_iff.mp h] at hsplit; simpa using hsplit
           · simpa using hsplit
-        · rw [hrec.1]; simpa [List.append_assoc] using hsplit
+        · rw [htail.1]; simpa [List.append_assoc] using hsplit
       · rw [linesOk_append, linesOk_append, srcs_append, hsrc]
-        have hpresrc : srcs (if (s.take skip).isEmpty = true then []
-            else [({ ty := .text, line := line, source := s.take skip } : Token)]) = s.take skip := by
-          split
-          · next h => simp [List.isEmpty_iff.mp h]
-          · simp
         rw [hpresrc, hlin, countNL_append, ← Nat.add_assoc]
         simp only [Bool.and_eq_true, Bool.and_true]
         constructor
         · split <;> simp [linesOk, Token.isTrim]
         · split
           · split <;> simp [linesOk, Token.isTrim]
-          · exact hrec.2
+          · exact htail.2
 
 /-- **C05 (tokenising loses nothing).** For every delimiter list, source and start line the
     token sources concatenated in order equal the input. -/
